@@ -89,7 +89,7 @@ func (s *QueryPlanStep) SetComputedValues(ctx *PlanningContext) *QueryPlanStep {
 }
 
 func (s *QueryPlanStep) setVariablesList() *QueryPlanStep {
-	args := lo.Uniq(getVariablesList(s.SelectionSet))
+	args := lo.Uniq(append(getVariablesList(s.SelectionSet), getDirectivesVariablesList(s.SelectionSet)...))
 
 	if len(args) == 0 {
 		args = nil
@@ -122,6 +122,37 @@ func getVariablesList(s ast.SelectionSet) []string {
 
 		if f.SelectionSet != nil {
 			args = append(args, getVariablesList(f.SelectionSet)...)
+		}
+	}
+	return args
+}
+
+// getDirectivesVariablesList collects the variables used in directives (@skip(if: $hidden))
+// of fields and fragments
+func getDirectivesVariablesList(s ast.SelectionSet) []string {
+	var args []string
+	add := func(directives ast.DirectiveList) {
+		for _, d := range directives {
+			for _, a := range d.Arguments {
+				if a.Value != nil && a.Value.Kind == ast.Variable {
+					args = append(args, a.Value.Raw)
+				}
+			}
+		}
+	}
+	for _, selection := range s {
+		switch sel := selection.(type) {
+		case *ast.Field:
+			add(sel.Directives)
+			args = append(args, getDirectivesVariablesList(sel.SelectionSet)...)
+		case *ast.InlineFragment:
+			add(sel.Directives)
+			args = append(args, getDirectivesVariablesList(sel.SelectionSet)...)
+		case *ast.FragmentSpread:
+			add(sel.Directives)
+			if sel.Definition != nil {
+				args = append(args, getDirectivesVariablesList(sel.Definition.SelectionSet)...)
+			}
 		}
 	}
 	return args
